@@ -149,28 +149,31 @@ theorem alookup_decrementLeq {c : List ((Nat × Nat) × Bool)} {k a' b' : Nat} {
     the poset without element `k` -/
 theorem decrement_inv {k : Nat} (hk : k < E.length) {s : St α} (h : InvR leq E k s)
     (he : s.elems = E.eraseIdx k) (hf : s.useCache = true) :
-    InvB leq (E.eraseIdx k) (E.length - 1) true
+    InvB leq (E.eraseIdx k) Ghost.none true
       { s with leqC := decrementLeq s.leqC k, descC := decrementCache s.descC k,
                ancC := decrementCache s.ancC k, chilC := decrementCache s.chilC k,
                parC := decrementCache s.parC k } := by
   have hlen : (E.eraseIdx k).length = E.length - 1 := List.length_eraseIdx_of_lt hk
-  refine ⟨he, hf, fun _ => ?_, fun _ => ?_, fun _ => ?_⟩
+  refine InvB.ofOk he hf (fun _ => ?_) (fun _ => ?_) (fun _ => ?_)
   · intro a' b' r hl
     obtain ⟨a, b, hak, hbk, rfl, rfl, hl'⟩ := alookup_decrementLeq hl
     obtain ⟨h1, h2, h3⟩ := h.leqOk a b r hl'
-    refine ⟨decr_lt h1 hak hk, decr_lt h2 hbk hk, fun _ _ => ?_⟩
+    rw [hlen]
+    refine ⟨decr_lt h1 hak hk, decr_lt h2 hbk hk, ?_⟩
     rw [rel_eraseIdx, up_decr hak, up_decr hbk]; exact h3
   · intro d j' v' hl
     have hl2 : alookup j' (decrementCache (s.closed d) k) = some v' := by cases d <;> exact hl
     obtain ⟨j, v, hjk, rfl, hl', rfl⟩ := alookup_decrementCache hl2
     obtain ⟨h1, h2, h3⟩ := h.closedOk d j v hl'
-    refine ⟨decr_lt h1 hjk hk, nodup_decrVal k h2, fun _ x' => ?_⟩
+    rw [hlen]
+    refine ⟨decr_lt h1 hjk hk, nodup_decrVal k h2, fun x' => ?_⟩
     rw [mem_decrVal, h3 hjk (up k x') (up_ne k x'), ltD_eraseIdx, up_decr hjk]
   · intro d j' v' hl
     have hl2 : alookup j' (decrementCache (s.direct d) k) = some v' := by cases d <;> exact hl
     obtain ⟨j, v, hjk, rfl, hl', rfl⟩ := alookup_decrementCache hl2
     obtain ⟨h1, h2, h3⟩ := h.directOk d j v hl'
-    refine ⟨decr_lt h1 hjk hk, nodup_decrVal k h2, fun _ x' => ?_⟩
+    rw [hlen]
+    refine ⟨decr_lt h1 hjk hk, nodup_decrVal k h2, fun x' => ?_⟩
     rw [mem_decrVal, h3 hjk (up k x') (up_ne k x'), isCover_eraseIdx, up_decr hjk]
 
 /-! ### `__delitem__` and `remove` -/
@@ -178,8 +181,8 @@ theorem decrement_inv {k : Nat} (hk : k < E.length) {s : St α} (h : InvR leq E 
 variable (hpo : IdxPO leq E) (hord : ∀ l, (ord l).Perm l)
 include hpo hord
 
-theorem delE_spec {k : Nat} (hk : k < E.length) {c : Bool} {s : St α} (h : InvB leq E E.length c s) :
-    Sat (delE ord k) s (fun s' _ => InvB leq (E.eraseIdx k) (E.length - 1) c s') := by
+theorem delE_spec {k : Nat} (hk : k < E.length) {c : Bool} {s : St α} (h : InvB leq E Ghost.none c s) :
+    Sat (delE ord k) s (fun s' _ => InvB leq (E.eraseIdx k) Ghost.none c s') := by
   unfold delE
   apply sat_bind; apply sat_get
   rw [h.elems, if_pos hk]
@@ -199,7 +202,7 @@ theorem delE_spec {k : Nat} (hk : k < E.length) {c : Bool} {s : St α} (h : InvB
     have hcf : c = false := by
       rw [← h.flag]; simpa using hc
     subst hcf
-    exact ⟨by rw [h.elems], h.flag, fun e => (by cases e), fun e => (by cases e), fun e => (by cases e)⟩
+    exact InvB.ofOk (by rw [h.elems]) h.flag (fun e => (by cases e)) (fun e => (by cases e)) (fun e => (by cases e))
 
 omit hpo hord in
 theorem delE_error {k : Nat} {s : St α} (hk : ¬ k < s.elems.length) :
